@@ -47,6 +47,11 @@ pub fn drain_events() -> Vec<String> {
     std::mem::take(&mut *g)
 }
 
+/// Number of events recorded since `start_recording`
+pub fn event_count() -> u64 {
+    SEQ.load(Ordering::SeqCst)
+}
+
 #[inline]
 pub fn is_recording() -> bool {
     RECORDING.load(Ordering::Relaxed)
